@@ -21,7 +21,7 @@ ASSUMPTIONS = ["classes that cannot be constructed from the value domain (e.g. E
                "StopIteration raised from an iterator's __next__ is the end of the stream, not an exception, so it is not used for the stream kind",
                "builtin slot attributes (OSError.filename, ImportError.name, ...) are neither args nor custom attributes"]
 REQUIRED_REACH = ["reraised_exception_objects_ok", "proxies_switched_serializer_on_live_connection", "chained_exceptions_ok", "aftermath_cases", "concurrent_exceptions_checked", "exc_ok", "kind_plain", "kind_propget", "kind_propset", "kind_batch", "kind_stream", "unserialisable_ok", "unknown_class_ok", "next_call_ok", "codec_baseexc_ok", "handover_cases_ok", "big_batches"]
-SHARD_TIMEOUT = {"quick": 240, "thorough": 2800}
+SHARD_TIMEOUT = {"quick": 480, "thorough": 2800}
 
 ARG_SHAPES = [(), ("msg",), ("msg", 2), (2, "strerror"), ("é\x00x", [1, {"k": None}], 2 ** 70, 1.5), ({"d": [1, 2.5, "s"]},), (None,), ("a", "b", "c", "d", "e", "f")]
 ATTR_SHAPES = [{}, {"custom_a": 1}, {"custom_a": "text é", "detail_b": [1, {"k": [None, True]}], "zz": 2 ** 80}, {"detail_b": {"nested": {"deeper": [1.5, -0.0]}}},
